@@ -12,20 +12,32 @@ for m in ('rtc_dwt', 'rtc_dtcwt', 'rtc_scat', 'rtc_misc'):
         pass
 
 
+import known
+FINDINGS = {}
+
+
+def _run(fn, cfg, sizes, seed):
+    """one evaluation; a failure inside the region of a recorded known finding is not a new violation"""
+    r = rtc.run_one(fn, cfg, sizes, seed)
+    if r['ok'] is False and known.in_known({'fn': fn, 'cfg': cfg, 'sizes': sizes}, FINDINGS):
+        return {'ok': True, 'detail': 'inside a known-finding region: ' + r['detail'][:100]}
+    return r
+
+
 def search(fn, cfg, model, budget=450):
     """the model point first, then a small-size sweep over the obligation's scope"""
     tried = 0
-    r = rtc.run_one(fn, cfg, model, 0)
+    r = _run(fn, cfg, model, 0)
     if r['ok'] is False:
         return model, r
     amps = ('unit', 'tiny', 'huge', 'sparse') if fn in rtc.LINEAR_FNS and 'amp' not in cfg else ('unit',)
     for amp in amps[1:]:
-        r2 = rtc.run_one(fn, dict(cfg, amp=amp), model, 0)
+        r2 = _run(fn, dict(cfg, amp=amp), model, 0)
         if r2['ok'] is False:
             return dict(model, amp=amp), r2
-    if fn in ('precision', 'purity', 'history_order', 'functional_dtype', 'dtcwt_table'):      # fixed shapes: only the seed varies
+    if fn in ('precision', 'purity', 'history_order', 'functional_dtype', 'dtcwt_table', 'scat_grad_ref'):      # fixed shapes: only the seed varies
         for sd in (1, 2):
-            r2 = rtc.run_one(fn, cfg, model, sd)
+            r2 = _run(fn, cfg, model, sd)
             if r2['ok'] is False:
                 return model, r2
         return None, r
@@ -43,7 +55,7 @@ def search(fn, cfg, model, budget=450):
                 for extra in variants:
                     amp = amps[(tried // 2) % len(amps)] if tried % 2 else 'unit'
                     cfg2 = dict(cfg, **extra)
-                    r = rtc.run_one(fn, dict(cfg2, amp=amp) if amp != 'unit' else cfg2, sizes, tried)
+                    r = _run(fn, dict(cfg2, amp=amp) if amp != 'unit' else cfg2, sizes, tried)
                     tried += 1
                     if r['ok'] is False:
                         return dict(sizes, _seed=tried - 1, _cfg=extra, **({'amp': amp} if amp != 'unit' else {})), r
@@ -59,6 +71,7 @@ if __name__ == '__main__':
         print(json.dumps({'reproduced': None, 'detail': 'no native replay recipe for this obligation'}))
         sys.exit(0)
     if '--search' in sys.argv:
+        FINDINGS.update(known.load_findings(spec.get('property')))
         sizes, r = search(fn, cfg, model)
         print(json.dumps({'reproduced': sizes is not None, 'sizes': sizes, 'detail': r['detail']}))
         sys.exit(1 if sizes is not None else 0)
